@@ -133,6 +133,26 @@ func zzCarrier(kind int, content []byte) (msg interface{}, supportedBytes, suppo
 		return 42, false, false
 	case 9:
 		return struct{ A int }{1}, false, false
+	case 10: // a *bytes.Reader whose first two bytes (a header, say) were already consumed: the message is the unread rest
+		r := bytes.NewReader(append([]byte{0xF1, 0xF2}, content...))
+		r.ReadByte()
+		r.ReadByte()
+		return r, true, true
+	case 11: // *strings.Reader, likewise
+		r := strings.NewReader(string(append([]byte{0xF1, 0xF2}, content...)))
+		r.ReadByte()
+		r.ReadByte()
+		return r, true, true
+	case 13: // [][]byte whose pieces are out-of-order views of one array (content is arr[0:1]+arr[2:3]+arr[1:2]+arr[3:])
+		if n >= 3 {
+			arr := append([]byte{content[0], content[2], content[1]}, content[3:]...)
+			return [][]byte{arr[0:1], arr[2:3], arr[1:2], arr[3:]}, true, true
+		}
+		return [][]byte{content}, true, true
+	case 12: // *bytes.Buffer, likewise
+		b := bytes.NewBuffer(append([]byte{0xF1, 0xF2}, content...))
+		b.Next(2)
+		return b, true, true
 	}
 	return nil, false, false
 }
